@@ -153,7 +153,7 @@ struct Sim {
         o.datadir = dir;
         o.coins_db_in_memory = false;
         o.block_tree_db_in_memory = false;
-        o.extra_args = {"-checkblocks=1", "-checklevel=0"};
+        o.extra_args = {"-checkblocks=1", "-checklevel=0", "-fastprune"};
         return o;
     }
     static Base& base()
